@@ -311,8 +311,12 @@ def check_char_units(res, cfg, lib):
     ed = I.make_adt('editor::Editor', buffer=('sym', 'buffer0'), cursor=('sym', 'c'), valid=('sym', 'valid0'))
     for w, rv in I.run(f, [('ref', (-1, 0, ()))], (), {(-1, 0): ed}):
         lab = base.outcome_label(rv)
-        want = ('len()', 'IF(c Lt len):%s' % ('T' if lab == 'true' else 'F'))
-        good = w.st == want
+        # the guard in any of its equivalent spellings: c < len, !(c >= len), len > c, !(len <= c)
+        truth = 'T' if lab == 'true' else 'F'
+        flip = {'T': 'F', 'F': 'T'}[truth]
+        wants = {('len()', 'IF(c Lt len):' + truth), ('len()', 'IF(c Ge len):' + flip),
+                 ('len()', 'IF(len Gt c):' + truth), ('len()', 'IF(len Le c):' + flip)}
+        good = w.st in wants
         res.oblige("U|%s|move_right|%s" % (cfg, lab), good, sample="move_right:%s guard %s" % (lab, w.st), violation=None if good else dict(
             rule='C05.units', key="C05|units|move_right|%s" % lab,
             msg="%s: the exit returning %s is guarded by %s, expected `cursor < len()` (character count) to be %s" % (
